@@ -177,6 +177,41 @@ def draw_mesh_spec(rng, geo, ndim, max_cells=300, max_subs=3, allow_mixed_units=
     return spec
 
 
+def draw_twin_spec(rng, mm):
+    """A second mesh closely related to mesh model mm - what anything that remembers meshes by an
+    incomplete key would confuse with it: (a) the same region and cell counts with OTHER
+    subregions / bc, or (b) the same cell counts and edge lengths SHIFTED by whole cells, keeping
+    those subregions (same absolute coordinates) that still lie inside."""
+    reg = mm.region
+    nd = reg.ndim
+    pmin, pmax = [float(x) for x in reg.pmin], [float(x) for x in reg.pmax]
+    cell = [float(c) for c in mm.cell]
+    spec = {"dims": list(reg.dims), "units": list(reg.units), "n": list(mm.n), "bc": ""}
+    if rng.random() < 0.5:
+        spec["p1"], spec["p2"] = pmin, pmax
+        subs = []
+        for name in ["a", "b", "c"][: rng.choice([0, 1, 2])]:
+            lo = [rng.randint(0, k - 1) for k in mm.n]
+            hi = [rng.randint(a + 1, k) for a, k in zip(lo, mm.n)]
+            subs.append([name, [p + a * c if a else p for p, a, c in zip(pmin, lo, cell)], [p + b * c if b < k else q for p, q, b, c, k in zip(pmin, pmax, hi, cell, mm.n)]])
+        spec["subs"] = subs
+        return spec
+    ax = rng.randrange(nd)
+    k = rng.choice([1, 1, 2, -1])
+    sh = [0.0] * nd
+    sh[ax] = k * cell[ax]
+    p1 = [a + d for a, d in zip(pmin, sh)]
+    p2 = [a + d for a, d in zip(pmax, sh)]
+    spec["p1"], spec["p2"] = p1, p2
+    subs = []
+    for name, sm in mm.subs:
+        a, b = [float(x) for x in sm.pmin], [float(x) for x in sm.pmax]
+        if all(x >= lo - 1e-9 * c and y <= hi + 1e-9 * c for x, y, lo, hi, c in zip(a, b, p1, p2, cell)):
+            subs.append([name, a, b])
+    spec["subs"] = subs
+    return spec
+
+
 def model_of_mesh_spec(spec):
     subs = [(nm, RegionM(a, b)) for nm, a, b in spec.get("subs", [])]
     return MeshM(RegionM(spec["p1"], spec["p2"], spec.get("dims"), spec.get("units")), spec["n"], spec.get("bc", ""), subs)
